@@ -34,6 +34,10 @@ TStep ==
          /\ e.panic = ""
          /\ DepthOK(trees'[o].beta, e.height, trees'[o].P)
          /\ \A i \in DOMAIN e.gets : CmpsOK(trees'[o].beta, e.gets[i][5], trees'[o].P)
+         \* the trees this call did not touch keep their bound (their P is unchanged)
+         /\ \A i \in DOMAIN e.others :
+              LET x == e.others[i]
+              IN  x[1] \in DOMAIN trees' /\ DepthOK(trees'[x[1]].beta, x[2], trees'[x[1]].P)
 
 TSkip ==
   /\ l <= N
